@@ -28,7 +28,10 @@
 (* A call is [kind, stage, ok, before, after]: one InletBase.update        *)
 (* ("in") or OutletBase.update ("out") with the states of all three arrays *)
 (* before and after.  Identities are unique in `before` (the harness gives *)
-(* a recycled inlet original a fresh identity between calls).              *)
+(* a recycled inlet original a fresh identity between calls).  When one    *)
+(* manager drives several inlets/outlets on one fluid array, every zone    *)
+(* has its own trace in its own frame and geometry, and the updates of the *)
+(* other zones appear in it as calls of kind "other".                      *)
 (*                                                                         *)
 (* (P) property layer: Failed(g, c) - the clauses of the statement one     *)
 (*     call breaks - and HFailed(g, calls) over a whole history (count     *)
@@ -146,6 +149,9 @@ DeletedV(v) == Cardinality(AllIds(v.before) \ AllIds(v.after))
 Entered(c) == EnteredV(View(c))
 Left(c) == LeftV(View(c))
 Deleted(c) == DeletedV(View(c))
+\* change of the number of fluid particles accounted for by a call
+NetStep(v) == IF v.kind = "other" THEN Len(v.after.fluid) - Len(v.before.fluid)
+              ELSE EnteredV(v) - LeftV(v)
 CountStep(v) == Len(v.after.fluid) = Len(v.before.fluid) + EnteredV(v) - LeftV(v)
 
 \* -- non-local rows (nb, na: NLOf of the states; rb, ra: the real ranges)
@@ -202,7 +208,14 @@ Failed(g, c) ==
          IN Pick(Aligned(c.after), "Aligned")
             \cup Pick(NLBase(nb, na, b, a), "NonLocalRows")
             \cup
-            IF c.stage \notin g.active
+            IF c.kind = "other"
+            \* an update of ANOTHER inlet/outlet managed together with this
+            \* one and sharing the fluid array: it may change the fluid (its
+            \* own trace judges how) but not this zone's inlet and outlet
+            THEN Pick(/\ BagSame(g, b.inlet, a.inlet) /\ BagSame(g, b.outlet, a.outlet)
+                      /\ BagSame(g, nb.inlet, na.inlet) /\ BagSame(g, nb.outlet, na.outlet),
+                      "NothingElse")
+            ELSE IF c.stage \notin g.active
             THEN Pick(Unchanged(g, b, a) /\ NLUnchanged(g, nb, na), "StageFilter")
             ELSE IF c.kind = "in"
             THEN Pick(InletCopy(g, b, a), "InletCopy")
@@ -222,7 +235,7 @@ Failed(g, c) ==
 Rank(st, i) == IF i \in Ids(st.outlet) THEN 2 ELSE IF i \in Ids(st.fluid) THEN 1 ELSE 0
 Net(calls) ==   \* entered - left after each call
     LET F[k \in 0..Len(calls)] ==
-          IF k = 0 THEN 0 ELSE F[k - 1] + EnteredV(calls[k]) - LeftV(calls[k])
+          IF k = 0 THEN 0 ELSE F[k - 1] + NetStep(calls[k])
     IN F
 \* identities deleted by the calls before call k
 GoneBefore(calls) ==
@@ -338,7 +351,7 @@ BagEq(q1, q2) ==
           Cardinality({k \in DOMAIN q1 : q1[k] = v})
               = Cardinality({k \in DOMAIN q2 : q2[k] = v})
 Drift(g, c) ==
-    c.ok /\ LET m == MUpdate(g, c.kind, c.stage, c.before)
+    c.ok /\ c.kind # "other" /\ LET m == MUpdate(g, c.kind, c.stage, c.before)
             IN ~(/\ m.nreal = c.after.nreal
                  /\ BagEq(m.inlet, c.after.inlet) /\ BagEq(m.fluid, c.after.fluid)
                  /\ BagEq(Blank(g, m.outlet), Blank(g, c.after.outlet)))
